@@ -1,5 +1,5 @@
 """C09 - static files are confined to the chosen tree and never shadow shell endpoints."""
-import json, os, re, urllib.parse
+import hashlib, json, os, re, urllib.parse
 import vlib
 
 IMPORTS = "From CRS Require Import Lib.Bytes Model.Files Judge.Common Judge.C09."
@@ -8,12 +8,12 @@ CLAUSES = {1: "a response carried the content of a file OUTSIDE the served tree 
            3: "a request to a shell endpoint (/c, /i/{id}, /o/{id}, /io) was answered with file content / by the file handler",
            4: "with -serve-files-from unset a non-shell path was not answered 404",
            5: "single-file mode returned something other than the configured file",
-           6: "file content was served without a 'file requested' notice to the operator",
+           6: "file content was served without a 'file requested' notice to the operator that names the request target as sent",
            21: "net/http's mux redirected (301) a path Model/Files.mux_redirects does not, or the reverse"}
 H = lambda s: (s if isinstance(s, bytes) else s.encode()).hex()
 TREE = ["a.txt", "sub/b.txt", "c", "io", "i/x", "o/x", "index.html", "sub/index.html", "sp ace.txt", "dot.file", "sub/deep/d.txt", "%2e%2e/enc.txt", "i/y/z"]
 OUTSIDE = ["canary.txt", "root-secret/s.txt", "root2/index.html"]
-HOSTILE = ["/../canary.txt", "/%2e%2e/canary.txt", "/%252e%252e/canary.txt", "/..%2fcanary.txt", "/..%252fcanary.txt", "//canary.txt",
+HOSTILE = ["/a.txt%0D%1B%5B2K", "/x%0A[10.0.0.1]%20File%20requested:%20/favicon.ico", "/sub/b.txt%1B%5B1A%1B%5B2K", "/../canary.txt", "/%2e%2e/canary.txt", "/%252e%252e/canary.txt", "/..%2fcanary.txt", "/..%252fcanary.txt", "//canary.txt",
            "/sub/../../canary.txt", "/sub/%2e%2e/%2e%2e/canary.txt", "/a.txt%00", "/a.txt/", "/./a.txt", "/sub//b.txt", "/..\\canary.txt",
            "/%5c..%5ccanary.txt", "/../root-secret/s.txt", "/%2e%2e/root-secret/s.txt", "/..%2froot-secret%2fs.txt", "/root/../../canary.txt",
            "/sub/deep/../../../canary.txt", "/%2e/a.txt", "/sub/%2e%2e/a.txt", "/.%2e/canary.txt", "/%2e./canary.txt", "/..;/canary.txt",
@@ -29,6 +29,15 @@ def decode_path(target):
         t = t[m.end():] or "/"
     t = t.split("?", 1)[0]
     return t.encode("latin-1"), urllib.parse.unquote_to_bytes(t)
+
+
+def names_request(line, dp):
+    """the operator's report: free of raw control bytes, and its (escaped) path decodes to the decoded path of the request"""
+    if b"File requested: " not in line or any(c < 0x20 or c == 0x7f for c in line):
+        return False
+    shown = line.split(b"File requested: ", 1)[1].strip()
+    shown = re.sub(rb"^[a-z]+://[^/]*", b"", shown).split(b"?", 1)[0]
+    return urllib.parse.unquote_to_bytes(shown) == dp
 
 
 def make_cases(rng, tier):
@@ -88,12 +97,46 @@ def terms(case, res, tags):
                     single = True
                 else:
                     served = "(Some %s)" % vlib.coq_str(p.encode())
-        noticed = any(b"File requested" in bytes.fromhex(l["line"]) for l in a.get("och") or [])
+        # the report names the request as the client sent it (escaped form: no raw control bytes reach the operator's terminal)
+        noticed = any(names_request(bytes.fromhex(l["line"]), dp) for l in a.get("och") or [])
         segs = "[%s]" % "; ".join(vlib.coq_str(urllib.parse.unquote_to_bytes(x)) for x in ep.split(b"/")[1:])
         out.append("mk %s %s %s %s %s %s %s %d %s %s" % (mode, vlib.coq_str(ep), segs, vlib.coq_str(dp), served, str(canary).lower(), str(single).lower(),
                                                      a.get("status") or 0, str(noticed).lower(), str(noticed).lower()))
         inputs.append({"mode": case["_mode"], "method": m, "target": t, "status": a.get("status"), "body": body[:80].hex(), "noticed": noticed})
     return out, inputs
+
+
+def big_content(n):
+    return bytes((i * 31 + i // 251 + 7) % 251 for i in range(n))
+
+
+def concurrent_downloads(run, binp):
+    """Overlapping downloads of one large file, in single-file and in directory mode: every client gets exactly the file."""
+    n = 3 << 20
+    want = hashlib.sha256(big_content(n)).hexdigest()
+    req = H("GET /big.bin HTTP/1.1\r\nHost: h.example\r\nConnection: close\r\n\r\n")
+    cases = []
+    for mode in ("file", "dir"):
+        cfg = {"fdir": mode, "tree": [{"p": "big.bin", "gen": n}, {"p": "a.txt", "c": H("A")}], "outside": []}
+        if mode == "file":
+            cfg["single"] = "big.bin"
+        cases.append({"i": len(cases), "cfg": cfg, "acts": [{"a": "raw", "req": req, "quiet_ms": 10},
+                                                           {"a": "par", "workers": 12 if run.tier == "quick" else 32, "rounds": 2, "reqs": [req], "quiet_ms": 50}]})
+    res, err = vlib.run_overlay_test(binp, "TestVerifHsrv", cases, run.rundir, tag="c09par", env=dict(os.environ, VERIF_TMP=run.rundir), timeout=600)
+    bad, total = [], 0
+    for c, r in zip(cases, res or []):
+        for one in ((r.get("acts") or [{}, {}])[1].get("par") or []):
+            total += 1
+            if one.get("status") != 200 or one.get("len") != n or one.get("sha256") != want:
+                bad.append({"mode": c["cfg"]["fdir"], "status": one.get("status"), "bytes_received": one.get("len"), "expected_bytes": n,
+                            "content_matches": one.get("sha256") == want, "error": one.get("error") or one.get("body_error")})
+    for b in bad[:1]:
+        run.violation("concurrent-download-corrupted", "overlapping downloads of the served file did not each return exactly that file",
+                      {"stream": "concurrent", "input": {"mode": b["mode"], "file_bytes": n, "clients_at_once": cases[0]["acts"][1]["workers"]}, "detail": bad[:4]})
+    run.oblige("concurrent downloads: %d overlapping GETs of a %d-byte file (single-file and directory mode) each return exactly the file" % (total, n),
+               not err and not bad and total >= 8, json.dumps(bad[:3]) + str(err))
+    run.stream("concurrent", total, total, "12 (thorough: 32) clients at once, two rounds each, download a 3 MiB file over real TLS in single-file and in "
+               "directory mode; length and SHA-256 of every body are compared with the file's", [{"file_bytes": n}])
 
 
 def check(run):
@@ -134,6 +177,7 @@ def check(run):
                "NUL, 5000-byte path, 40-level climbs, absolute-form) and random compositions of such fragments; tree files requested by half-closing TLS "
                "clients and with an already-cancelled request context; non-trivial = a file was served, a "
                "shell path, or a path that is not already clean", [allinputs[0], allinputs[len(TREE) + 1]], {"tags": dist, "files_served": served})
+    concurrent_downloads(run, binp)
     # the model of path.Clean against the real library
     if ok2:
         frs = [b"..", b".", b"", b"a", b"sub", b"..a", b"a..", b"...", b"%2e%2e", b"\x00", b" ", b"\\", b"x" * 300]
